@@ -55,6 +55,8 @@ def place_ends_with(sym, field):
     s = sym
     while isinstance(s, tuple) and s and s[0] in ('ref', 'deref', 'cast'):
         s = s[1]
+    if isinstance(s, tuple) and s and s[0] == 'proj':
+        return s[2] == '.' + field
     return isinstance(s, tuple) and s and s[0] == 'place' and len(s[2]) > 0 and s[2][-1] == '.' + field
 
 
